@@ -89,6 +89,8 @@ type Path struct {
 	nViol        int
 	chooseN      int // number of non-forced choose decisions (shape)
 	stdout       value
+	tz           int64 // local time zone offset of this path (seconds east of UTC)
+	tzSet        bool
 	nums         map[string]*Term // number tokens written by verifNum
 	env          map[string]value
 }
